@@ -73,6 +73,7 @@ func callEncode(obj any, buf *bytes.Buffer) (err error) {
 // goEncObj encodes an existing object into a buffer holding `pre` (with history m)
 func goEncObj(obj any, pre []byte, m BufMode) (res EncResult) {
 	buf := mkBuffer(pre, m)
+	defer end()
 	defer func() {
 		if r := recover(); r != nil {
 			res = EncResult{Class: "panic", PanicMsg: fmt.Sprint(r)}
@@ -122,6 +123,7 @@ func (r DecResult) Line() string {
 func goDecInto(obj any, data []byte, m BufMode, measure bool) (res DecResult) {
 	buf := mkBuffer(data, m)
 	var m0, m1 runtime.MemStats
+	defer end()
 	defer func() {
 		if r := recover(); r != nil {
 			res = DecResult{Class: "panic", PanicMsg: fmt.Sprint(r)}
